@@ -591,6 +591,18 @@ class Gen:
         self.used_contracts.add(key)
         sig = self.apply_rules(sig, ["vis"] + [r for r in rl if r.startswith("sig_")], s.path, sig_line, key)
         body = self.apply_rules(body, [r for r in rl if not r.startswith("sig_")], s.path, body_line, key)
+        if ctr:
+            # a parameter an edit stopped using gets a leading underscore (`_format`): the contract still names it `format`.
+            # The underscore only silences a warning, so the parameter is given its contract name back.
+            ctext = "\n".join([t_ for _, t_ in ctr.requires] + [t_ for _, t_ in ctr.ensures])
+            for pm_ in list(re.finditer(r"(?<![\w])_([a-z]\w*)\s*:", mask(sig))):
+                nm_ = pm_.group(1)
+                if re.search(r"\b%s\b" % re.escape(nm_), ctext) and not re.search(r"\b_%s\b" % re.escape(nm_), ctext) \
+                        and not re.search(r"(?<![\w.])%s\b" % re.escape(nm_), mask(body)) and not re.search(r"(?<![\w])%s\s*:" % re.escape(nm_), mask(sig)):
+                    sig = re.sub(r"(?<![\w])_%s\b" % re.escape(nm_), nm_, sig)
+                    body = re.sub(r"(?<![\w.])_%s\b" % re.escape(nm_), nm_, body)
+                    self.fidelity.append(dict(rule="R-underscore", file=s.path, line=sig_line, item=key, before="_" + nm_, after=nm_,
+                                              trusted="nothing (a leading underscore on a parameter name only silences the unused-variable warning)"))
         # constructs the rewrite table must have consumed: if one survives (the statement was edited out of
         # the rule's shape) the unit is undecided - Verus would otherwise report obligations of code it
         # only half understands
